@@ -34,6 +34,11 @@ META = {
 }
 
 
+# the fraction-flavoured path goes through symbolic numerator / denominator (non-linear link n == v*d): give
+# its obligations a generous limit so that a loaded machine does not turn them into 'undecided'
+SLOW = {'obl_ms': 45000, 'budget_s': 600}
+
+
 def setup(mode):
     C.import_catalogue()
 
@@ -64,7 +69,7 @@ def jobs(tier, seed):
             mode = MODES[k % 8]
             k += 1
             out.append({'fn': 'quantize', 'cfg': {'pair': pr, 'flav': fl, 'quant': qv,
-                                                  'mode': mode, 'explicit': bool(k % 3)}})
+                                                  'mode': mode, 'explicit': bool(k % 3)}, 'opts': dict(SLOW)})
     # every mode x flavour x explicit/default on one fixed pair, all quanta
     for m in MODES:
         for fl in ('dec', 'frac'):
@@ -72,7 +77,7 @@ def jobs(tier, seed):
                 out.append({'fn': 'quantize', 'cfg': {'pair': ['kg', 'lb'], 'flav': fl,
                                                       'quant': quants[(MODES.index(m) + ex) % 6],
                                                       'mode': m, 'explicit': ex,
-                                                      'pass_none': MODES.index(m) % 2 == 0}})
+                                                      'pass_none': MODES.index(m) % 2 == 0}, 'opts': dict(SLOW)})
     # flavour independence: both flavours are proved equal to the same *function* of the value
     # (is_rounding determines the multiple uniquely), so equality of the two results follows; a
     # direct "decimal result == fraction result" obligation relates two independent rounding
